@@ -10,7 +10,7 @@ ENGINES = [
                        "kani::cover! witnesses + must-fail twins against vacuity; counterexamples replayed natively "
                        "with `cargo kani playback` before being reported"},
     {"name": "mir2smt", "path": "/verif/mir2smt/",
-     "serves_properties": ["C31"],
+     "serves_properties": ["C04", "C31"],
      "kind_free_text": "E2: nightly rustc -Zunpretty=mir dump of the staged crate -> SMT-LIB2 bit-vector terms; "
                        "queries decided by z3 and cross-checked with cvc5; FileId::new's atomic calls become the steps "
                        "of a bounded multi-thread transition system with a symbolic schedule"},
@@ -47,8 +47,8 @@ CHECKS = {
                 "characters, longer tokens not in the prefix list) is outside and a mutation there is not detected.",
     },
     "C04": {
-        "engine": "kani",
-        "technique": "bounded model checking (Kani/CBMC): LimitTracker on its full domain, lexer limit gate on one-character inputs with a symbolic limit",
+        "engine": "kani+mir2smt",
+        "technique": "bounded model checking (Kani/CBMC) + MIR->SMT (z3, cvc5): LimitTracker on its full domain by both engines, lexer limit gate on one-character inputs with a symbolic limit",
         "text": "LimitTracker::check_and_increment/decrement/new for every (current, high, limit); nesting histories of depth <= 5 under "
                 "every limit; the lexer's token-limit gate for every 1-byte input and every limit (at most `limit` items, limit error "
                 "iff the unlimited stream is longer, nothing after it, high-water mark).",
